@@ -129,7 +129,12 @@ func variant(t *rapid.T, p string) string {
 
 // genDestPool draws the mount destinations of a case: one chain of nested directories,
 // a few more paths over the same three segment names, sometimes the root.
-func genDestPool(t *rapid.T, segs []string) []string {
+//
+// Mount destinations and device paths are ONE id space: two thirds of the cases also put one
+// or two of the case's device paths (devs, in any spelling) and sometimes /dev itself into the pool,
+// so that the spec or the adjustment mounts something (bind, tmpfs, with or without bind /
+// rbind options) exactly where a device node is, is added or is removed.
+func genDestPool(t *rapid.T, segs []string, devs []string) []string {
 	var pool []string
 	seen := map[string]bool{}
 	add := func(p string) {
@@ -155,6 +160,14 @@ func genDestPool(t *rapid.T, segs []string) []string {
 	}
 	if chance(t, "root", 1, 3) {
 		add("/")
+	}
+	if len(devs) > 0 {
+		for _, d := range devs {
+			add(variant(t, d))
+		}
+		if chance(t, "mount_at_dev_dir", 1, 4) {
+			add("/dev")
+		}
 	}
 	return pool
 }
@@ -577,7 +590,14 @@ func genAdj(t *rapid.T, pool []string, den int, ks keysets) Adj {
 
 func genC13(t *rapid.T) C13Case {
 	ks := mkKeysets(pick(t, "odd_prefix", oddPrefixes...))
-	pool := genDestPool(t, ks.seg)
+	var shared []string // device paths that are mount destinations too
+	if chance(t, "mounts_at_device_paths", 2, 3) {
+		shared = subset(t, "device_paths_as_destinations", ks.dev, 1, 2)
+	}
+	pool := genDestPool(t, ks.seg, shared)
+	for _, d := range shared { // drawn more often as device keys (the draws are distinct by value)
+		ks.dev = append(ks.dev, d, d)
+	}
 	c := C13Case{Spec: genSpec(t, pool, ks), Reps: 32}
 	// Each family is present with probability 1/2 ("focused" cases: 1/5).
 	den := 2
@@ -624,10 +644,11 @@ func genC13(t *rapid.T) C13Case {
 	// the CDI injector callback edits the spec like a real one in half of the cases
 	if chance(t, "injector_edits", 1, 2) {
 		c.Inject = &Inject{
-			HookKind: pick(t, "inject_hook", append([]string{""}, hookKinds...)...),
-			Env:      rapid.Bool().Draw(t, "inject_env"),
-			Mount:    rapid.Bool().Draw(t, "inject_mount"),
-			Device:   rapid.Bool().Draw(t, "inject_device"),
+			HookKind:      pick(t, "inject_hook", append([]string{""}, hookKinds...)...),
+			Env:           rapid.Bool().Draw(t, "inject_env"),
+			Mount:         rapid.Bool().Draw(t, "inject_mount"),
+			Device:        rapid.Bool().Draw(t, "inject_device"),
+			MountAtDevice: chance(t, "inject_mount_at_device", 1, 2),
 		}
 	}
 	return c
